@@ -1,6 +1,7 @@
 package state
 
 import (
+	"errors"
 	"bytes"
 	"math/big"
 	"slices"
@@ -82,10 +83,19 @@ func (bs *TokenTransferInfo) DecodeBinary(r *io.BinReader) {
 	bs.NewNEP11Batch = r.ReadBool()
 	bs.NewNEP17Batch = r.ReadBool()
 	lenBalances := r.ReadVarUint()
+	if rl := r.Len(); r.Err != nil || (rl >= 0 && lenBalances > uint64(rl)/8) {
+		if r.Err == nil {
+			r.Err = errors.New("too many LastUpdated entries")
+		}
+		return
+	}
 	m := make(map[int32]uint32, lenBalances)
 	for range lenBalances {
 		key := int32(r.ReadU32LE())
 		m[key] = r.ReadU32LE()
+		if r.Err != nil {
+			return
+		}
 	}
 	bs.LastUpdated = m
 }
